@@ -433,8 +433,12 @@ func (fb *FullBlockImage) Resize(w int, h int) {
 		y *= 2
 
 		top := img.At(x, y)
-		bot := img.At(x, y+1)
-		r, g, b, a := averageColor(top, bot)
+		r, g, b, a := averageColor(top)
+		if y+1 < img.Bounds().Max.Y {
+			// the last row of an image with an odd height covers a
+			// single pixel
+			r, g, b, a = averageColor(top, img.At(x, y+1))
+		}
 		switch {
 		// TODO: What is the right value for alpha that we should set
 		// the background color = 0??
